@@ -22,13 +22,13 @@ Payload(rs) == Concat(MapSeq(EncRec, rs))
 BlockBytes(rs) == VarintNat(Len(rs)) \o VarintNat(Len(Payload(rs))) \o Payload(rs) \o Sync
 Donors == { << R(1) >>, << VNone, R(0 - 300) >>, <<>> }
 
-VARIABLES s, file, ops
-vars == << s, file, ops >>
+VARIABLES wst, wfile, wops
+vars == << wst, wfile, wops >>
 
 FileOf(blocks) == Header \o Concat(MapSeq(BlockBytes, blocks))
 PendingBytes(st) == Len(Payload(st.pending))
 
-Init == s = WInit /\ file = Header /\ ops = 0
+Init == wst = WInit /\ wfile = Header /\ wops = 0
 
 \* successor states allowed by the policy
 WriteSucc(st, r) ==
@@ -39,16 +39,16 @@ WriteSucc(st, r) ==
 FlushSucc(st) == [st EXCEPT !.blocks = Dumped(st), !.pending = <<>>, !.flushed = TRUE]
 WBlockSucc(st, rs) == [st EXCEPT !.blocks = Append(Dumped(st), rs), !.pending = <<>>, !.submitted = @ \o rs, !.flushed = FALSE]
 
-DoWrite == \E r \in Recs : \E s2 \in WriteSucc(s, r) : s' = s2 /\ Write(s, s2, r)
-DoWriteFail == s' = s /\ WriteFail(s, s)
-DoFlush == s' = FlushSucc(s) /\ Flush(s, s')
-DoWBlock == \E rs \in Donors : s' = WBlockSucc(s, rs) /\ WriteBlock(s, s', rs)
-DoReopen == s.pending = <<>> /\ s' = s /\ Reopen(s, s)
+DoWrite == \E r \in Recs : \E s2 \in WriteSucc(wst, r) : wst' = s2 /\ Write(wst, s2, r)
+DoWriteFail == wst' = wst /\ WriteFail(wst, wst)
+DoFlush == wst' = FlushSucc(wst) /\ Flush(wst, wst')
+DoWBlock == \E rs \in Donors : wst' = WBlockSucc(wst, rs) /\ WriteBlock(wst, wst', rs)
+DoReopen == wst.pending = <<>> /\ wst' = wst /\ Reopen(wst, wst)
 
-Next == /\ ops < MaxOps
-        /\ ops' = ops + 1
+Next == /\ wops < MaxOps
+        /\ wops' = wops + 1
         /\ (DoWrite \/ DoWriteFail \/ DoFlush \/ DoWBlock \/ DoReopen)
-        /\ file' = FileOf(s'.blocks)
+        /\ wfile' = FileOf(wst'.blocks)
 Spec == Init /\ [][Next]_vars
 
 \* ---- reading the stream back -------------------------------------------------------------
@@ -64,16 +64,16 @@ Boundaries0(F) == LET h == ParseHeader(F) bl == ParseBlocks(F, h.hend, h.sync, <
 IsPrefixV(a, b) == Len(a) <= Len(b) /\ \A i \in 1..Len(a) : VEq(a[i], b[i])
 
 \* ---- properties ---------------------------------------------------------------------------
-InvReadBack == ReadBack(s)                                                   \* C07
-InvDurable == Durable(s)
-InvFile == LET r == ReadBytes(file) IN r.end = "normal" /\ SeqEq(r.recs, Flat(s.blocks))      \* C04/C05: the stream is always a valid file
-InvFlushed == s.flushed => SeqEq(ReadBytes(file).recs, s.submitted)          \* C07 at byte level
-InvCutSafe == \A k \in 0..Len(file) :                                        \* C06: every truncation
-                LET r == ReadBytes(SubSeq(file, 1, k)) IN
-                /\ IsPrefixV(r.recs, s.submitted)
-                /\ (r.end = "normal" <=> k \in Boundaries0(file))
-InvSyncSafe == \A k \in (Len(Header) + 1)..Len(file) :                       \* C06: every altered byte of every block's trailing marker
-                 LET F2 == [file EXCEPT ![k] = (file[k] + 1) % 256]
-                     inSync == \E b \in Boundaries0(file) : k > b - 16 /\ k <= b /\ b > Len(Header)
-                 IN inSync => LET r == ReadBytes(F2) IN r.end = "raise" /\ IsPrefixV(r.recs, s.submitted)
+InvReadBack == ReadBack(wst)                                                   \* C07
+InvDurable == Durable(wst)
+InvFile == LET r == ReadBytes(wfile) IN r.end = "normal" /\ SeqEq(r.recs, Flat(wst.blocks))      \* C04/C05: the stream is always a valid wfile
+InvFlushed == wst.flushed => SeqEq(ReadBytes(wfile).recs, wst.submitted)          \* C07 at byte level
+InvCutSafe == \A k \in 0..Len(wfile) :                                        \* C06: every truncation
+                LET r == ReadBytes(SubSeq(wfile, 1, k)) IN
+                /\ IsPrefixV(r.recs, wst.submitted)
+                /\ (r.end = "normal" <=> k \in Boundaries0(wfile))
+InvSyncSafe == \A k \in (Len(Header) + 1)..Len(wfile) :                       \* C06: every altered byte of every block'wst trailing marker
+                 LET F2 == [wfile EXCEPT ![k] = (wfile[k] + 1) % 256]
+                     inSync == \E b \in Boundaries0(wfile) : k > b - 16 /\ k <= b /\ b > Len(Header)
+                 IN inSync => LET r == ReadBytes(F2) IN r.end = "raise" /\ IsPrefixV(r.recs, wst.submitted)
 =============================================================================
